@@ -20,7 +20,7 @@ ANCHORS = ["decaylanguage.decay.decay:DecayChain.to_string", "decaylanguage.deca
            "decaylanguage.utils.utilities:DescriptorFormat.format_descriptor"]
 WORKERS = {"quick": 4, "thorough": 16}
 WTESTS = {"groups": ['to_string'], "tests": ['tests/decay', 'tests/utils']}
-REQUIRED = {"object-hashed-compared-printed-or-copied-before-rendering": 50, "object-hashed-compared-printed-or-copied-inside-a-format-block": 20, "built-from-the-dictionary-form": 50, "cascade-of-10-or-more-decays": 3, "sub-decay-without-daughters": 10, "depth>=3": 50, "name-with-paren": 50, "name-with-quote-or-sign": 50, "repeated-subdecay": 50, "orders-compared": 500, "queried-before-to_string": 50, "rendered-before-inside-after-block": 50, "context-object-re-entered-inside-its-block": 20, "rejected-format-request-before-rendering": 20, "block-left-through-an-exception": 20, "format-through-a-subclass": 20, "context-objects-prepared-before-nesting": 20, "config-assigned-by-hand-before-the-block": 20, "patterns-set-by-hand-and-handed-back": 20,
+REQUIRED = {"flattened-chain-rendered": 20, "rendering-after-one-that-went-wrong:abandoned": 20, "object-hashed-compared-printed-or-copied-before-rendering": 50, "object-hashed-compared-printed-or-copied-inside-a-format-block": 20, "built-from-the-dictionary-form": 50, "cascade-of-10-or-more-decays": 3, "sub-decay-without-daughters": 10, "depth>=3": 50, "name-with-paren": 50, "name-with-quote-or-sign": 50, "repeated-subdecay": 50, "orders-compared": 500, "queried-before-to_string": 50, "rendered-before-inside-after-block": 50, "context-object-re-entered-inside-its-block": 20, "rejected-format-request-before-rendering": 20, "block-left-through-an-exception": 20, "format-through-a-subclass": 20, "context-objects-prepared-before-nesting": 20, "config-assigned-by-hand-before-the-block": 20, "patterns-set-by-hand-and-handed-back": 20,
             **{f"pattern-pair-{i}": 20 for i in range(8)}, "C13.to_string.reads_back": 500}
 EXHAUSTIVE_NOTE = "tree shapes <= 5 (quick) / 6 (thorough) decaying particles enumerated with multiplicities 1..2; all daughter orders for small chains"
 ASSUMPTIONS = ["names contain no blanks and have balanced parentheses (all real particle names do)", "brackets of the pattern family do not occur in names"]
